@@ -19,7 +19,7 @@ Open Scope list_scope.
 
 Definition def_tyguard_src (p : fcprog) (data codata : list ctydecl) (d : fdef) : bool :=
   nodup_str (fvars (fdctx d)) && ctx_tyd data codata (compile_ctx (fdctx d))
-  && tg p data codata (compile_ctx (fdctx d)) (fdbody d) && negb (shadowing_risk (f_is_codata p) (fdbody d) [])
+  && tg p data codata (compile_ctx (fdctx d)) (fdbody d)
   && (has_ty (fdbody d) (compile_ty (fdret d)) && tyd data codata (compile_ty (fdret d))).
 Definition prog_tyguard_src (p : fcprog) : bool :=
   decls_tyguard p && forallb (def_tyguard_src p (cdata_of p) (ccodata_of p)) (fcpdefs p).
